@@ -26,7 +26,7 @@ pub fn registry(property: &str) -> Option<CheckSpec> {
         "C28" => Some(CheckSpec {
             property: "C28",
             level: "fault_enumeration",
-            parts: vec![Part::new(decode::DecodeFaults, 2_800, 42_000)],
+            parts: vec![Part::new(decode::DecodeFaults, 4_000, 80_000)],
             assumptions: vec![
                 "the ABI-described slice of `(bytes32[3], bytes)` is payload[offset+32 .. offset+32+length] with the full 256-bit offset and length words, offset >= 128 (dynamic data cannot overlap the four head words)".into(),
                 "snappy length prefixes above 2^24 are not injected (a 4 GiB zeroed allocation is the decompressor's, not the decoder's, behaviour)".into(),
